@@ -166,6 +166,90 @@ def drv_fault(scn, seed, plan, fault_mode):
     return tr
 
 
+def drv_resubmit(seed, gen_kw, nres):
+    rng = random.Random(seed)
+    scn = scenario.gen(rng, **gen_kw)
+    scn["reports"] = rng.random() < 0.35
+    if rng.random() < 0.4:          # some jobs end up missing in the first epoch
+        scn["sbatch_fail"] = {str(rng.randint(1, 3)): 7}
+    allflags = [["--failed", "--missing"], ["--no-failed", "--missing"], ["--failed", "--no-missing"], ["--successful"],
+                ["--no-failed", "--no-missing", "--successful"], ["--failed", "--missing", "--successful"], [],
+                ["--no-failed", "--no-missing"]]
+    flag_sets = [allflags[rng.randrange(len(allflags))] for _ in range(nres)]
+    tr = run.run_resubmit(scn, seed, flag_sets)
+    tr["driver"] = ["resubmit", scn, seed, flag_sets]
+    return tr
+
+
+def all_small_dags(n=3):
+    """All DAGs over n jobs listed A, B, ... with arbitrary listing order relative to dependency order (acyclic)."""
+    import itertools
+    names = [chr(65 + i) for i in range(n)]
+    pairs = [(a, b) for a in names for b in names if a != b]
+    out = []
+    for mask in range(1 << len(pairs)):
+        blk = {j: [] for j in names}
+        for i, (a, b) in enumerate(pairs):
+            if mask >> i & 1:
+                blk[a].append(b)          # a is blocked by b
+        # acyclic?
+        seen, ok = {}, True
+
+        def visit(j):
+            nonlocal ok
+            if seen.get(j) == 1:
+                ok = False
+                return
+            if seen.get(j) == 2:
+                return
+            seen[j] = 1
+            for k in blk[j]:
+                visit(k)
+            seen[j] = 2
+        for j in names:
+            visit(j)
+        if ok:
+            out.append(blk)
+    return out
+
+
+def drv_resubmit_scn(scn, seed, flag_sets):
+    tr = run.run_resubmit(scn, seed, flag_sets)
+    tr["driver"] = ["resubmit", scn, seed, flag_sets]
+    return tr
+
+
+def small_resubmit_tasks(ctx, count):
+    """The 3-job space: all DAGs x exit codes x cancel flags x batch sizes x resubmit flags; sampled (quick) or swept."""
+    rng = random.Random(ctx.seed + 77)
+    dags = all_small_dags(3)
+    flagsets = [["--failed", "--missing"], ["--failed", "--no-missing"], ["--successful"], ["--failed", "--missing", "--successful"]]
+    space = []
+    for blk in dags:
+        for rcmask in range(8):
+            for fmask in (0, 7, 2, 5):
+                for size in (1, 3):
+                    for fs in flagsets:
+                        space.append((blk, rcmask, fmask, size, fs))
+    ctx.extra["small_resubmit_space"] = len(space)
+    pick = space if count is None or count >= len(space) else rng.sample(space, count)
+    tasks = []
+    for i, (blk, rcmask, fmask, size, fs) in enumerate(pick):
+        scn = families.scn("ABC", blk=blk, flag="".join(j for k, j in enumerate("ABC") if fmask >> k & 1),
+                           rc={j: 1 for k, j in enumerate("ABC") if rcmask >> k & 1},
+                           groups=[families.G(size=size, tryadd=(i % 2 == 0), procs=2)], maxnodes=0 if i % 3 else 1)
+        tasks.append(("resubmit_scn", (scn, ctx.seed + i, [fs])))
+    return tasks
+
+
+def drv_resubmit_incomplete(seed, gen_kw, variant):
+    rng = random.Random(seed)
+    scn = scenario.gen(rng, **gen_kw)
+    tr = run.run_resubmit_incomplete(scn, seed, variant)
+    tr["driver"] = ["resubmit_incomplete", scn, seed, variant]
+    return tr
+
+
 def drv_hooks(seed, combo, local, fail_teardown):
     rng = random.Random(seed)
     scn = scenario.gen(rng, n_min=2, n_max=5, groups_max=1, allow_time=False)
@@ -215,7 +299,7 @@ def drv_random_nodefaults(seed, gen_kw):
     return tr
 
 
-DRIVERS = {"hooks": drv_hooks, "cancel": drv_cancel, "random_cancel": drv_random_cancel, "fault": drv_fault, "random_nodefaults": drv_random_nodefaults, "cluster": drv_cluster, "results": drv_results, "random_hpc": drv_random_hpc, "scn": drv_scn, "model_replay": drv_model_replay,
+DRIVERS = {"resubmit_scn": drv_resubmit_scn, "resubmit": drv_resubmit, "resubmit_incomplete": drv_resubmit_incomplete, "hooks": drv_hooks, "cancel": drv_cancel, "random_cancel": drv_random_cancel, "fault": drv_fault, "random_nodefaults": drv_random_nodefaults, "cluster": drv_cluster, "results": drv_results, "random_hpc": drv_random_hpc, "scn": drv_scn, "model_replay": drv_model_replay,
            "batching_input": drv_batching_input, "dry_pair": drv_dry_pair, "first_round": drv_first_round}
 
 
@@ -227,9 +311,27 @@ def load_known():
     return [x for x in json.load(open(p))["findings"] if x.get("state") == "known"]
 
 
-def match_known(known, prop, clause, tr):
+def _matcher_k2(tr, raw_index):
+    """K2: the job started at the violating launch lacks a row only for blockers that never ran at all (missing and
+    not selected) -- not for blockers that are themselves being rerun."""
+    if raw_index is None:
+        return False
+    e = tr["ev"][raw_index]
+    if e.get("e") != "launch":
+        return False
+    lacking = [k for k in tr["scn"]["blk"][e["job"]] if k not in e["rows"]]
+    launched_before = {x["job"] for x in tr["ev"][:raw_index] if x.get("e") == "launch"}
+    return bool(lacking) and all(k not in launched_before for k in lacking)
+
+
+MATCHERS = {"k2": _matcher_k2}
+
+
+def match_known(known, prop, clause, tr, raw_index=None):
     for k in known:
         if k["property"] != prop or clause not in k["clauses"]:
+            continue
+        if k.get("matcher") and not MATCHERS[k["matcher"]](tr, raw_index):
             continue
         ok = True
         for cond in k.get("trace_has", []):
@@ -355,8 +457,11 @@ class Ctx:
             other = [c for c in v["viol"] if c not in mine]
             if other and not ignore_other:
                 self.notes.append(f"other-property clauses violated in a trace of {what}: {other}")
+            idx = tracecheck.encode_trace(tr, "x")[1] if bad else []
             for c in bad:
-                k = match_known(self.known, self.prop, c, tr)
+                pos = v["vpos"].get(c)
+                raw = idx[pos - 1] if pos and 0 < pos <= len(idx) else None
+                k = match_known(self.known, self.prop, c, tr, raw)
                 if k:
                     self.known_hits.append((k["id"], c))
                     continue
@@ -461,11 +566,23 @@ def check_C01(ctx):
     return ctx.finish(rule=RULE_PROTOCOL)
 
 
-def make_protocol_check(salt, gen_kw=None):
+def make_protocol_check(salt, gen_kw=None, extra=None):
     def chk(ctx):
         protocol_suite(ctx, salt=salt, gen_kw=gen_kw)
-        return ctx.finish(rule=RULE_PROTOCOL)
+        if extra:
+            extra(ctx)
+        return ctx.finish(rule=RULE_PROTOCOL + ("; plus resubmission / cancellation histories" if extra else ""))
     return chk
+
+
+def histories_extra(ctx):
+    """Histories with resubmissions (epochs) and cancellations."""
+    q = ctx.tier == "quick"
+    kw = dict(n_min=2, n_max=6, groups_max=1)
+    tasks = [("resubmit", (s, kw, 1 + (s % 2))) for s in seeds(ctx, 120 if q else 2000, 71)]
+    tasks += [("random_cancel", (s, dict(n_min=3, n_max=6, groups_max=1))) for s in seeds(ctx, 60 if q else 1000, 72)]
+    tasks += small_resubmit_tasks(ctx, 300 if q else 4000)
+    ctx.judge(run_tasks(tasks), "histories with resubmissions and cancellations")
 
 
 def batching_inputs(n, maxest=2, capextra=2):
@@ -824,9 +941,26 @@ def check_C16(ctx):
                            "commands are served by the controller and recorded with their environment")
 
 
-CHECKS = {"C16": check_C16, "C14": check_C14, "C01": check_C01, "C07": check_C07, "C08": check_C08, "C10": check_C10, "C11": check_C11, "C12": check_C12}
-for _i, _p in enumerate(["C02", "C03", "C04", "C05", "C09"]):
+def check_C13(ctx):
+    q = ctx.tier == "quick"
+    kw = dict(n_min=2, n_max=6, groups_max=1)
+    tasks = [("resubmit", (s, kw, 1 + (s % 2))) for s in seeds(ctx, 200 if q else 3000, 61)]
+    for v in ("quiet", "held-other", "held-same"):
+        tasks += [("resubmit_incomplete", (s, kw, v)) for s in seeds(ctx, 40 if q else 500, 62)]
+    tasks += small_resubmit_tasks(ctx, 500 if q else 6000)
+    ctx.judge(run_tasks(tasks), "completed submissions (incl. missing jobs) resubmitted once or twice with random flag combinations, "
+              "with and without report generation; resubmit-jobs on incomplete submissions")
+    return ctx.finish(rule="random DAGs run to completion (40% with a batch failing at sbatch so that jobs are missing), then "
+                           "resubmit-jobs with one of 8 flag combinations, once or twice, report generation on in 35% of the runs; "
+                           "resubmit-jobs on an incomplete submission: nobody submitter / a compute node holds the role (run from "
+                           "another host and from the same host)")
+
+
+CHECKS = {"C13": check_C13, "C16": check_C16, "C14": check_C14, "C01": check_C01, "C07": check_C07, "C08": check_C08, "C10": check_C10, "C11": check_C11, "C12": check_C12}
+for _i, _p in enumerate(["C03", "C04", "C05"]):
     CHECKS[_p] = make_protocol_check(10 + _i)
+CHECKS["C02"] = make_protocol_check(14, extra=histories_extra)     # dependency order also when jobs are rerun
+CHECKS["C09"] = make_protocol_check(15, extra=histories_extra)
 # C06 also under failing scheduler queries: the limit is stated for every instant, not only for fault-free runs
 CHECKS["C06"] = make_protocol_check(16, gen_kw=dict(squeue_faults=0.4, n_min=3))
 
